@@ -34,7 +34,9 @@ theorem mlpc_commitment_shape (ck : MLPC.CK F) (nv : Nat) (evals : List F) (c : 
   unfold MLPC.commit at h
   split at h
   · cases h
-  · cases h; rfl
+  · split at h
+    · cases h
+    · cases h; rfl
 
 /-- proof size in group elements as a function of the polynomial size `N = 2^nv`: `log₂ N` -/
 theorem mlpc_proof_size_log (ck : MLPC.CK F) (nv : Nat) (evals z πs : List F)
@@ -45,8 +47,10 @@ theorem mlpc_proof_size_log (ck : MLPC.CK F) (nv : Nat) (evals z πs : List F)
   · cases h
   · split at h
     · cases h
-    · rename_i _ he
-      rw [hl]; exact (Decidable.not_not.1 he).symm
+    · split at h
+      · cases h
+      · rename_i _ _ he
+        rw [hl]; exact (Decidable.not_not.1 he).symm
 
 example : MLPC.open (MLPC.wfCK (5 : K) 11 [7, 20]) 2 [1, 2, 3, 50] [8, 13] = .ok [31, 30] := by decide
 
